@@ -43,6 +43,14 @@ Theorem C15_threshold_in_range : forall (cum : list R) (frac : R), (1 <= length 
 Proof. exact threshold_in_range. Qed.
 Print Assumptions C15_threshold_in_range.
 
+(* once the request is reached the count does not depend on how many further modes were precomputed *)
+Theorem C15_threshold_independent_of_precomputed : forall (cum extra : list R) (frac : R),
+  Forall (fun c => frac <= c) extra -> (1 <= count_ge OR cum frac)%nat ->
+  dec_n_modes_clipped OR (Z.of_nat (length (cum ++ extra))) (cum ++ extra) frac = dec_n_modes_clipped OR (Z.of_nat (length cum)) cum frac /\
+  svd_n_modes_clipped OR (Z.of_nat (length (cum ++ extra))) (cum ++ extra) frac = svd_n_modes_clipped OR (Z.of_nat (length cum)) cum frac.
+Proof. exact threshold_independent_of_precomputed. Qed.
+Print Assumptions C15_threshold_independent_of_precomputed.
+
 Theorem C15_threshold_strict_variant_refuted :
   exists cum frac, frac <= nth 0 cum 0 /\ n_modes_required_strict 2 cum frac = 2%Z /\
                    fst (dec_n_modes_clipped OR 2 cum frac) = 1%Z.
